@@ -25,8 +25,8 @@
    terminates": C18_outer_loop_terminates_partial bounds the outer loop; the inner loop ends when the damping, doubled
    from its restart value, passes its maximum, which is arithmetic the abstract scalar type does not have; the
    harness observes termination under an alarm. *)
-From Coq Require Import ZArith List Bool.
-From Adept Require Import Scalar Minim MinimProofs MinimReal ExprReal MinimFlow MinimFlowProofs MinimCG MinimCGProofs MinimLBFGS MinimLBFGSProofs.
+From Coq Require Import ZArith List Bool Reals Lra.
+From Adept Require Import Scalar Minim MinimProofs MinimReal ExprReal MinimFlow MinimFlowProofs MinimCG MinimCGProofs MinimLBFGS MinimLBFGSProofs MinimTerm.
 From AdeptGen Require Import Gen_Minim.
 Import ListNotations.
 Local Open Scope Z_scope.
@@ -189,6 +189,25 @@ Print Assumptions C18_lbfgs_invalid_bounds_partial.
 Print Assumptions C18_line_search_partial.
 Print Assumptions C18_conjugate_gradient_partial.
 Print Assumptions C18_conjugate_gradient_invalid_bounds_partial.
+
+(* "the call terminates", bounded Levenberg family over the reals, for ANY cost function: with max_it outer fuel and K+2
+   inner fuel, where dlow * mult^K >= d_max and every damping value that can occur is <= 0 or >= dlow, the model never
+   runs out of fuel, i.e. both loops end by themselves *)
+Theorem C18_terminates_over_the_reals_partial : forall cost grad hess solve norm2 isfinite ofnat (s : settings (T:=R)) (dlow : R) (K : nat),
+  (0 < dlow)%R -> (1 < d_mult s)%R -> (dlow <= d_restart s)%R -> (d_max s <= dlow * d_mult s ^ K)%R ->
+  (0 < d_div s)%R -> (dlow * d_div s <= d_min s)%R ->
+  forall fo fi additive lo hi x m1 inf, dok dlow (d_start s) -> 0 < max_it s -> (Z.to_nat (max_it s) <= fo)%nat -> (K + 2 <= fi)%nat ->
+  let r := lm_bounded RO cost grad hess solve norm2 isfinite ofnat fo fi s additive lo hi x m1 inf in
+  r_status r <> MOutOfFuel /\ r_status r <> MInnerOutOfFuel.
+Proof. exact lm_bounded_terminates. Qed.
+Print Assumptions C18_terminates_over_the_reals_partial.
+(* its hypotheses hold for the default settings of Minimizer.h (damping min 1/128, max 1e5, multiplier 2, divider 5, start 0,
+   restart 1/4) with dlow = 1/640 and K = 26: at most 28 trials in an inner loop *)
+Example C18_default_settings_terminate :
+  let s := mkSettings 100 (-1)%R (/10)%R (-1) (/128)%R 100000%R 2%R 5%R 0%R (/4)%R in
+  (0 < /640)%R /\ (1 < d_mult s)%R /\ (/640 <= d_restart s)%R /\ (d_max s <= /640 * d_mult s ^ 26)%R /\ (0 < d_div s)%R
+  /\ (/640 * d_div s <= d_min s)%R /\ dok (/640) (d_start s).
+Proof. cbn [d_mult d_restart d_max d_div d_min d_start pow]. unfold dok. repeat split; try lra. Qed.
 
 (* the order hypotheses are met by the real numbers: feasibility for every real cost function *)
 Theorem C18_feasible_over_the_reals_partial : forall cost grad hess solve norm2 isfinite ofnat,
